@@ -204,6 +204,11 @@ func init() {
 		Assumptions: []string{seqAssumption},
 		Cases:       func(t string) int { return tierN(t, 1200, 543*3+30000) },
 		RunCase: func(c *CaseCtx) *CaseResult {
+			if c.Idx%40 == 39 {
+				// the same claims with the REAL task runner and real exit statuses (the monitored runner's conventions are
+				// the harness's own): failing commands, dependents, allow_failure
+				return simpleCase(c, drv.RunOutputCase(c.Seed, drv.OutputOpts{Exe: selfExe(), WorkDir: c.TmpDir, MaxBytes: 5000}), 50)
+			}
 			o := graphOpts(c.Idx, c.Tier)
 			if c.Idx%12 == 11 && !(c.Tier == "thorough" && c.Idx < 543*3) {
 				// schedules: concurrent clients, tasks finishing by themselves in random order and with random failures;
@@ -230,6 +235,10 @@ func init() {
 		Assumptions: []string{seqAssumption, "the combination non-exit error + allow_failure + fail-fast is a genuine race between the cancel goroutine and the scheduler loop: the oracle accepts both orders there (three-valued verdict)"},
 		Cases:       func(t string) int { return tierN(t, 1200, 30000) },
 		RunCase: func(c *CaseCtx) *CaseResult {
+			if c.Idx%40 == 39 {
+				// real task runner, real exit statuses
+				return simpleCase(c, drv.RunOutputCase(c.Seed, drv.OutputOpts{Exe: selfExe(), WorkDir: c.TmpDir, MaxBytes: 5000}), 50)
+			}
 			if c.Idx%12 == 11 {
 				// schedules: tasks of several jobs finish concurrently, by themselves, with random failures; verdict soundness
 				// (plain success only if every task ended ok / allowed failure in the runner) judged offline over the log
